@@ -16,7 +16,8 @@ class External(CallableLayer):
                  inputs: Names, inherit: Names = (), marker: Callable = None):
         cls = type(obj)
         if marker is None:
-            marker = lambda *args: cls
+            # the marker receives the field name first: fields of the same object are different computations
+            marker = lambda name, *args: (cls, name)
 
         if fields is None or properties is None:
             props, methods = [], []
